@@ -74,8 +74,22 @@ impl C16 {
     fn run_driving(&self, sc: &Scenario, d: &Driving, ctx: &mut RunCtx) -> Result<Trace, Fail> {
         let m128 = sc.get("m128") != 0;
         let k = sc.get("frames").clamp(1, 2000) as usize;
-        let cfg = MCfg { m128, kempston: true, mouse: sc.get("mouse") != 0, ay: true, ay_mode: 1, sound: d.sound, fastload: sc.get("fastload") != 0, ..Default::default() };
+        // "sound off" is reached either through the settings or, in half of those drivings, by switching
+        // sound generation off and on through set_sound() at host-call boundaries; the same goes for the
+        // fast-load setting, which may be given in the settings or applied by set_fast_load() afterwards
+        let sound_toggle = !d.sound && (d.seed >> 20) & 1 == 1;
+        let fastload = sc.get("fastload") != 0;
+        let fastload_late = (d.seed >> 21) & 1 == 1;
+        let cfg = MCfg { m128, kempston: true, mouse: sc.get("mouse") != 0, ay: true, ay_mode: 1, sound: d.sound || sound_toggle, fastload: if fastload_late { !fastload } else { fastload }, ..Default::default() };
         let mut e = new_emu(&cfg);
+        if fastload_late {
+            ctx.probe("fastload_set_after_construction");
+            e.set_fast_load(fastload);
+        }
+        if sound_toggle {
+            ctx.probe("sound_toggled_by_setter");
+            e.set_sound(false);
+        }
         let tape_img = sc.ops.iter().find(|o| o.k == "tape").map(|o| o.b.clone()).unwrap_or_default();
         // read sizes of the chunking asset: mostly small (short reads inside every buffer refill)
         let chunk = [1usize, 2, 3, 5, 7, 13, 23, 32, 46, 64, 100, 127, 129, 1000, 4096, 40000][(d.seed % 16) as usize];
@@ -142,7 +156,7 @@ impl C16 {
         let mut audio_h = Fnv::new();
         let mut audio: Vec<(f32, f32)> = vec![];
         let mut drng = Rng::new(d.seed);
-        let always_drain = d.drain == 0 && (d.mode == 0 || d.mode == 3);
+        let always_drain = d.drain == 0 && (d.mode == 0 || d.mode == 3) && !sound_toggle;
         // driving-specific set-up
         match d.mode {
             3 => set_break_mode(
@@ -158,6 +172,9 @@ impl C16 {
             _ => set_break_mode(&mut e, BreakMode::Never),
         }
         while frame < k {
+            if sound_toggle {
+                e.set_sound(drng.bool());
+            }
             // apply the events of this frame boundary
             let mut had_event = false;
             while ei < evs.len() && (evs[ei].arg(0) as usize) <= frame {
@@ -273,7 +290,7 @@ impl Property for C16 {
         }
     }
     fn rule(&self) -> &'static str {
-        "scenario = machine + initial content (ROM boot / random program / repository snapshot) + frame-keyed input script (keys, joysticks, mouse, deck commands, pokes, tape insertion) + K frames, executed under 3-5 drivings (FrameCount(1); FrameCount(n_i); Max mode with scripted stopwatch readings; breakpoint stops every n-th instruction with resume; sound off; drain always/sometimes/never; asset delivered by BufferCursor / chunking asset / GzipAsset / FileAsset / 1-byte reads); distinct = (content kind, machine, driving mode, parameter bucket, asset kind, drain, sound)"
+        "scenario = machine + initial content (ROM boot / random program / repository snapshot) + frame-keyed input script (keys, joysticks, mouse, deck commands, pokes, tape insertion) + K frames, executed under 3-5 drivings (FrameCount(1); FrameCount(n_i); Max mode with scripted stopwatch readings; breakpoint stops every n-th instruction with resume; sound off (by settings or toggled through set_sound at host-call boundaries); fast-load setting given in the settings or through set_fast_load; drain always/sometimes/never; asset delivered by BufferCursor / chunking asset / GzipAsset / FileAsset / 1-byte reads); distinct = (content kind, machine, driving mode, parameter bucket, asset kind, drain, sound)"
     }
     fn state_measure(&self) -> &'static str {
         "distinct full-state hashes (registers, hidden CPU state, all RAM, paging, clock, border, both frame buffers) observed at compared frame boundaries"
@@ -288,7 +305,7 @@ impl Property for C16 {
         vec!["host inputs are applied only at frame boundaries (as the property states)", "audio streams are compared only between drivings that drain at every frame boundary"]
     }
     fn expected_probes(&self) -> Vec<&'static str> {
-        vec!["cmp_framecount_n", "cmp_max_mode", "cmp_breakpoints", "cmp_sound_off", "cmp_asset_kind", "cmp_repeat", "audio_compared", "loader_program"]
+        vec!["cmp_framecount_n", "cmp_max_mode", "cmp_breakpoints", "cmp_sound_off", "cmp_asset_kind", "cmp_repeat", "audio_compared", "loader_program", "sound_toggled_by_setter", "fastload_set_after_construction"]
     }
 
     fn gen(&self, rng: &mut Rng, tier: Tier, _idx: u64) -> Scenario {
